@@ -93,4 +93,5 @@ Inductive grule :=
 Inductive trans :=
 | TOMPDo | TOMPParallelDo | TOMPTeamsParDo | TOMPLoop | TOMPParallelLoop | TOMPTaskloop | TACCLoop
 | TOMPParallel | TOMPSingle | TOMPMaster | TOMPTarget | TACCParallel | TACCKernels | TACCData
-| TACCEnterData.
+| TACCEnterData
+| TACCRoutine.       (* ACCRoutineTrans: marks the routine with `acc routine` *)
